@@ -70,7 +70,7 @@ func c10module() (*meta.Module, error) {
 	return m, err
 }
 
-var c10schemaKinds = []string{"enum", "enum-list", "bits", "bits-list", "identityref", "identityref-list", "union", "union-list", "leafref", "keys", "json-numbers"}
+var c10schemaKinds = []string{"enum", "enum-list", "bits", "bits-list", "identityref", "identityref-list", "union", "union-list", "leafref", "keys", "json-numbers", "go-fields"}
 
 func c10SchemaCases() int { return len(c10schemaKinds) }
 
@@ -282,6 +282,81 @@ func c10Schema(c *core.Ctx, k int) {
 		c10Keys(c, m)
 	case "json-numbers":
 		c10JSONNumbers(c)
+	case "go-fields":
+		c10GoFields(c)
+	}
+}
+
+// a Go struct field or map value of a wider (or named) Go type read as a narrower YANG integer through the reflection nodes: the value
+// read is the value held, or the read fails
+func c10GoFields(c *core.Ctx) {
+	type named int64
+	widths := []struct {
+		yang   string
+		lo, hi int64
+	}{{"int8", -128, 127}, {"int16", -32768, 32767}, {"int32", -2147483648, 2147483647}, {"uint8", 0, 255}, {"uint16", 0, 65535}, {"uint32", 0, 4294967295}}
+	for _, w := range widths {
+		m, err := parser.LoadModuleFromString(nil, fmt.Sprintf(`module g { namespace "urn:g"; prefix g; revision 2020-01-01; leaf a { type %s; } leaf-list al { type %s; } }`, w.yang, w.yang))
+		if err != nil {
+			c.Violate("go-fields/load", "%v", err)
+			return
+		}
+		for _, v := range []int64{w.lo, w.hi, 0, 1, w.hi + 1, w.lo - 1, w.hi + 6, 1 << 32, 1<<32 + 5, 1<<63 - 1, -1 << 63, -1} {
+			holders := map[string]interface{}{
+				"struct-int64": &struct{ A int64 }{v},
+				"struct-int":   &struct{ A int }{int(v)},
+				"struct-named": &struct{ A named }{named(v)},
+				"map-int64":    map[string]interface{}{"a": v},
+				"map-int":      map[string]interface{}{"a": int(v)},
+				"struct-list":  &struct{ Al []int64 }{[]int64{1, v}},
+			}
+			for hname, h := range holders {
+				for _, api := range []string{"reflect", "node"} {
+					var n node.Node
+					if api == "reflect" {
+						n = nodeutil.ReflectChild(h)
+					} else {
+						n = &nodeutil.Node{Object: h}
+					}
+					leaf := "a"
+					if hname == "struct-list" {
+						leaf = "al"
+					}
+					tag := fmt.Sprintf("go-field/%s/%s/%s", w.yang, hname, api)
+					c.Eval()
+					c.Shape("%s/in-range=%v", tag, v >= w.lo && v <= w.hi)
+					var got val.Value
+					var gerr error
+					if c.Guard(tag, func() { got, gerr = node.NewBrowser(m, n).Root().GetValue(leaf) }) {
+						continue
+					}
+					in := v >= w.lo && v <= w.hi
+					if gerr != nil {
+						if in {
+							c.Count("go_field_in_range_read_error")
+						}
+						continue
+					}
+					if got == nil {
+						if v != 0 {
+							c.Count("go_field_read_as_unset")
+						}
+						continue
+					}
+					gotS := got.String()
+					if l, isList := got.(val.Listable); isList {
+						if l.Len() != 2 {
+							c.Violate("inexact/"+tag+"/length", "%s leaf-list held as []int64{1,%d} read as %v", w.yang, v, got)
+							continue
+						}
+						gotS = l.Item(1).String()
+					}
+					if gotS != fmt.Sprint(v) {
+						c.Violate("inexact/"+tag+"/number-changed", "a %s leaf held as %s = %d was read as %s", w.yang, hname, v, gotS)
+					}
+				}
+			}
+		}
 	}
 }
 
